@@ -55,7 +55,21 @@ class C19(Prop):
             backed = readable and rng.chance(2, 5)
             reg = {"start": addr, "len": ln, "readable": readable, "backed": backed, "foff": 0, "file_hex": ""}
             view = bytearray(rng.bytes(ln))
-            if backed:
+            prev = regions[-1] if regions else None
+            if backed and prev is not None and prev["backed"] and rng.chance(2, 5):
+                # another mapping of the file of the previous region (as the segments of one library are): same
+                # path, device and inode, its own offset
+                fbytes = bytearray(bytes.fromhex(prev["file_hex"]))
+                flen = len(fbytes)
+                # (an offset at or beyond the end of the file would make the file unusable for this mapping:
+                # `metadata.len() > offset` is required before it is opened; the generator keeps it inside)
+                cands = [o for o in (prev["foff"] + (prev["len"] + page - 1) // page * page, page * rng.range(0, 3), 0)
+                         if o < flen]
+                foff = rng.choice(cands)
+                reg["foff"] = foff
+                reg["file_hex"] = prev["file_hex"]
+                reg["file_of"] = prev.get("file_of", len(regions) - 1)
+            elif backed:
                 foff = page * rng.range(0, 2)
                 flen_kind = rng.below(4)
                 if flen_kind == 0:
@@ -69,6 +83,7 @@ class C19(Prop):
                 fbytes = bytearray(rng.bytes(flen))
                 reg["foff"] = foff
                 reg["file_hex"] = bytes(fbytes).hex()
+            if backed:
                 # process view: file content zero-filled, except privately modified pages
                 for p in range((ln + page - 1) // page):
                     lo, hi = p * page, min((p + 1) * page, ln)
@@ -184,8 +199,9 @@ class C19(Prop):
         for i, r in enumerate(case["regions"]):
             perms = "r--p" if r["readable"] else "---p"
             if r["backed"]:
-                fp = os.path.join(d, "back%d" % i)
-                open(fp, "wb").write(bytes.fromhex(r["file_hex"]))
+                fp = os.path.join(d, "back%d" % r.get("file_of", i))
+                if "file_of" not in r:
+                    open(fp, "wb").write(bytes.fromhex(r["file_hex"]))
                 st = os.stat(fp)
                 lines.append("%08x-%08x %s %08x %02x:%02x %d                  %s\n" % (
                     r["start"], r["start"] + r["len"], perms, r["foff"], os.major(st.st_dev), os.minor(st.st_dev),
